@@ -41,6 +41,14 @@ def evaluate(case, engine, acc=None):
 
 def run_one(engine, seed, acc, tier):
     case = c19.make_case(engine, seed, tight=False)
+    # a two-solution history in one process (state kept between read-backs, e.g. a cache, shows only then);
+    # the prelude is explicit in the case so that a replay in a fresh process reproduces it
+    pre = c19.make_case(engine, core.h64('prelude', seed), tight=False)
+    case['prelude'] = {k: pre[k] for k in pre}
+    try:
+        c19.evaluate(case['prelude'], engine, None, want='C14')
+    except (core.RunTimeout, core.BudgetExceeded):
+        pass
     kind = 'synth' if engine.startswith('synth') else 'shipped'
     run = c19.solve_cli(case, kind)
     fs = []
@@ -75,11 +83,17 @@ def run_one(engine, seed, acc, tier):
         acc.violation(base.violation(ID, f, case, seed, engine))
 
 
+def _eval_with_prelude(case, engine):
+    if case.get('prelude'):
+        c19.evaluate(case['prelude'], engine, None, want='C14')
+    return c19.evaluate(case, engine, None, want='C14')
+
+
 def replay(rec):
-    return c19.evaluate(rec['case'], rec.get('engine'), None, want='C14')
+    return _eval_with_prelude(rec['case'], rec.get('engine'))
 
 
-_min_synth = base.make_minimiser(lambda c, e: c19.evaluate(c, e, None, want='C14'))
+_min_synth = base.make_minimiser(lambda c, e: _eval_with_prelude(c, e))
 
 
 def minimise(v):
